@@ -353,6 +353,63 @@ theorem similarity_response_fields_roundtrip (ident : Nat) (prefs tb : ValList) 
         exact chunksAux_joinBytes prefs.toList pb pb.length hj hp (Nat.le_refl _)
       simp [Old.simRespUnpack, e1, Old.bytesList, e2, ofList_toList, Nat.mod_eq_of_lt hi]
 
+/-- constructors of the hand-written payloads do not alter in-domain values: when every integer argument fits the
+    unsigned short it is sent as, the attributes are exactly the arguments (`identifier % 65536` is the identity on the
+    whole `H` domain, 65535 included); DiscoveryIntroductionRequestPayload only appends its fixed supports_new_style -/
+theorem old_init_keeps_in_domain_values (cls : String) (args : List Val) (h : identsInDomain args) :
+    Old.init cls args = args ∨ Old.init cls args = args ++ [.atom (.nat 1)] := by
+  have e : Old.reduceIdent (Old.short cls) args = args := by
+    unfold Old.reduceIdent
+    cases Old.identPos (Old.short cls) with
+    | none => rfl
+    | some i => exact modIdentAt_in_domain i args h
+  unfold Old.init
+  by_cases hc : (Old.short cls == "DiscoveryIntroductionRequestPayload") = true
+  · right; simp [hc, e, Old.n]
+  · left; simp [hc, e]
+
+/-- boundary: identifier 65535 survives the constructor, 65536 wraps to 0 -/
+example : Old.init "ipv8.messaging.payload.PuncturePayload" [.atom (.bytes []), .atom (.bytes []), .atom (.nat 65535)]
+      = [.atom (.bytes []), .atom (.bytes []), .atom (.nat 65535)]
+    ∧ Old.init "ipv8.messaging.payload.PuncturePayload" [.atom (.bytes []), .atom (.bytes []), .atom (.nat 65536)]
+      = [.atom (.bytes []), .atom (.bytes []), .atom (.nat 0)] := by decide
+
+/-! ## serializer instances: an overlay encodes and decodes with ITS OWN packer table -/
+
+/-- for any set of overlays created in any order, each registering any packers under any names (fresh names, names also
+    used by other overlays, overrides of default names): the overlay created at position `|before|` resolves every name to
+    its own LAST registration of that name, otherwise to the default packer — independently of what the overlays before
+    and after it registered — and the module-level `default_serializer` still resolves every name to the default -/
+theorem overlay_serializers_isolated (defaults : Reg.Table) (before after : List (List (String × Fmt)))
+    (regs : List (String × Fmt)) (n : String) :
+    Reg.lookup ((Reg.run defaults (before ++ [regs] ++ after)).tbl (before.length + 1)) n
+      = (Reg.ownLookup regs n).or (Reg.lookup defaults n)
+    ∧ Reg.lookup ((Reg.run defaults (before ++ [regs] ++ after)).tbl 0) n = Reg.lookup defaults n := by
+  constructor
+  · simp only [Reg.run, List.foldl_append, List.foldl_cons, List.foldl_nil]
+    have hn := Reg.foldl_create_next defaults before (Reg.World.init defaults)
+    have hnext : (before.foldl (fun w regs => (Reg.create defaults w regs).1) (Reg.World.init defaults)).next
+        = before.length + 1 := by rw [hn]; simp [Reg.World.init]; omega
+    rw [Reg.foldl_create_stable defaults after _ _ (by rw [Reg.create_next, hnext]; omega), Reg.create_tbl, hnext]
+    simp [Reg.lookup_append, Reg.ownLookup]
+  · simp only [Reg.run]
+    rw [Reg.foldl_create_stable defaults _ _ 0 (by simp [Reg.World.init])]
+    simp [Reg.World.init]
+
+/-- non-vacuity, and the model separates the policies: two overlays register `digest` as 20 / 32 bytes and a third widens
+    `varlenH`; with fresh serializers each resolves its own, with a shared instance the last registration wins for all -/
+example :
+    let d : Reg.Table := [("varlenH", .varlen 2 1), ("H", .struct [.uint 2])]
+    let regss := [[("digest", Fmt.struct [.fixed 20])], [("digest", Fmt.struct [.fixed 32])], [("varlenH", Fmt.varlen 4 1)]]
+    Reg.lookup ((Reg.run d regss).tbl 1) "digest" = some (.struct [.fixed 20])
+    ∧ Reg.lookup ((Reg.run d regss).tbl 2) "digest" = some (.struct [.fixed 32])
+    ∧ Reg.lookup ((Reg.run d regss).tbl 1) "varlenH" = some (.varlen 2 1)
+    ∧ Reg.lookup ((Reg.run d regss).tbl 0) "varlenH" = some (.varlen 2 1)
+    ∧ Reg.lookup ((regss.foldl (fun w r => (Reg.createShared w r).1) (Reg.World.init d)).tbl 0) "digest"
+        = some (.struct [.fixed 32])
+    ∧ Reg.lookup ((regss.foldl (fun w r => (Reg.createShared w r).1) (Reg.World.init d)).tbl 0) "varlenH"
+        = some (.varlen 4 1) := by decide
+
 /-! ## dataclass-defined payloads: class-level conversion state (model `Dataclass.lean`, tied to the code by driver op `dc`)
 
   FULL statement wanted by the property (every dataclass message type decodes to itself with all its fields, whatever
